@@ -322,10 +322,17 @@ def run_property(pid, tier, seed, jobs, keep=False):
     if agg["inconclusive"]:
         reasons.append("%d inconclusive cases" % agg["inconclusive"])
     fl = mod.floors(tier) if hasattr(mod, "floors") else {}
+    # contracts placed on PRIVATE helpers are diagnostics next to the API-level oracle: an implementation that no
+    # longer calls the helper (a vectorised rewrite, say) must not make the run inconclusive -- the miss is reported
+    soft = set(getattr(mod, "SOFT_MONITORS", ()))
+    soft_missed = []
     for kind in ("classes", "monitors", "counters"):
         for k, need in fl.get(kind, {}).items():
             got = ctxagg[kind].get(k, 0)
             if got < need:
+                if kind == "monitors" and k in soft:
+                    soft_missed.append("%s=%d < %d" % (k, got, need))
+                    continue
                 reasons.append("floor %s[%s]=%d < %d" % (kind, k, got, need))
     if len(nt_sigs) < max(2, fl.get("distinct_nontrivial", 2)):
         reasons.append("distinct non-trivial cases %d below floor" % len(nt_sigs))
@@ -367,6 +374,7 @@ def run_property(pid, tier, seed, jobs, keep=False):
             "chunks": len(chunks),
             "verdict": verdict,
             "inconclusive_reasons": reasons,
+            "internal_helper_monitors_not_reached": soft_missed,
             "extras": extras[:4],
         },
         "assumptions": getattr(mod, "ASSUMPTIONS", []),
@@ -384,6 +392,9 @@ def run_property(pid, tier, seed, jobs, keep=False):
           "monitors=%s, %.1fs" % (pid, tier, seed, agg["n"], agg["held"] + agg["violated"], agg["ood"],
                                   len(all_sigs), len(nt_sigs),
                                   json.dumps(ctxagg["monitors"], sort_keys=True), time.time() - t0))
+    if soft_missed:
+        print("note: contracts on private helpers below their usual evaluation count (the implementation may not call "
+              "them any more; the API-level oracle decides): " + "; ".join(soft_missed))
     for kid, e in sorted(known.items()):
         print("KNOWN-FINDING: property=%s %s [%s; observed %d time(s) in this run]"
               % (pid, e["what"], kid, known_hits.get(kid, 0)))
